@@ -435,11 +435,13 @@ where
         let mut sss = SliceSubmode::empty();
         let sss_bits: u8 = reader.read_bits(2)?;
 
-        if sss_bits & 0x01 != 0 {
+        // Bit 1 (transmitted first) is Rectangular Slices, bit 2 is Arbitrary
+        // Slice Ordering (H.263 5.1.9).
+        if sss_bits & 0x02 != 0 {
             sss |= SliceSubmode::RECTANGULAR_SLICES;
         }
 
-        if sss_bits & 0x02 != 0 {
+        if sss_bits & 0x01 != 0 {
             sss |= SliceSubmode::ARBITRARY_ORDER;
         }
 
